@@ -12,7 +12,8 @@ RULE = ("grid cases: files of 56..400 bytes around segment boundaries, 1<=k<=N<=
         "each block, unused regions), truncation at any length, shares swapped between share numbers, between two files and between two "
         "encodings of the same key, servers whose read answers change (fault plan on the n-th read), each read in full or by range "
         "through a recording consumer, once or twice on the same node; files uploaded with a large max segment size (blocks of 262145..600000 "
-        "bytes, k = 1..3) with one byte flipped at positions over the whole block incl. every 256 KiB boundary and the last bytes; non-trivial = the scenario damaged at least one share that the "
+        "bytes, k = 1..3) with one byte flipped at positions over the whole block incl. every 256 KiB boundary and the last bytes; one, several or all shares cut to 0..37 bytes of share data (shorter than "
+        "the offset table) where the read must finish or fail; non-trivial = the scenario damaged at least one share that the "
         "download touched; distinct = distinct (file parameters, scenario, damage)")
 META = {
     "title": "Immutable downloads never return wrong bytes",
@@ -973,10 +974,69 @@ def large_blocks(ctx):
         large_block_case(ctx, i)
 
 
+# ---- shares too short to hold their offset table ---------------------------------------------------------------------
+def short_truncation_case(ctx, i):
+    """One share (the others intact), several shares, or all shares cut down to 0..37 bytes of share data: the read
+    must finish -- with the uploaded bytes or with an error.  Here the grid's verdict `hung` (nothing left to run, the
+    Deferred never fired) or a 20 s timeout on a read that normally takes milliseconds counts as a violation."""
+    from core import grid as G
+    r = ctx.rng("short", i)
+    k = r.choice([1, 2, 3])
+    n = r.choice([k, k + 1, k + 2, 2 * k + 1])
+    mss = r.choice([24, 40, 100])
+    size = r.choice([56, 90, 150])
+    data = bytes(r.getrandbits(8) for _ in range(size))
+    nservers = r.choice([n, n, n + 1, max(1, n // 2)])
+    seed = r.getrandbits(30)
+    base = {"i": i, "short": True, "k": k, "n": n, "size": size, "max_segment_size": mss, "servers": nservers, "seed": seed}
+    outcomes = []
+    with G.Grid(num_servers=nservers, k=k, n=n, happy=1, max_segment_size=mss, seed=seed, timeout=30) as g:
+        cap = g.run(g.upload(data, convergence=b"c02s"))
+        shares = g.find_shares(cap)
+        raws = {(s.server, s.shnum): g.read_share(s) for s in shares}
+        plans = []
+        lengths = [0, 1, 3, 4, 16, 35, 36, 37]
+        for ln in lengths:
+            plans.append(("one", [r.choice(shares)], ln))
+        plans.append(("several", r.sample(shares, r.randrange(1, len(shares) + 1)), None))
+        plans.append(("all", list(shares), r.choice(lengths)))
+        plans.append(("all", list(shares), None))
+        r.shuffle(plans)
+        for (which, hit, ln) in plans[:ctx.n(7, 11)]:
+            cut = {}
+            for s in hit:
+                head, pay, leases = split_container(raws[(s.server, s.shnum)])
+                c = ln if ln is not None else r.choice(lengths)
+                cut[s.shnum] = c
+                g.write_share(s, join_container(head, pay[:c], leases if r.random() < 0.8 else b""))
+            off, sz = r.choice([(0, None), (0, None), random_ranges(r, size, mss)])
+            status, err, chunks = read_through(g, fresh_node(g, cap), off, sz, timeout=20)
+            case = dict(base, truncated={str(a): b for a, b in sorted(cut.items())}, which=which, read=[off, sz])
+            judge(ctx, data, off, sz, status, err, chunks, case, "short-share")
+            if status in ("hung", "timeout"):
+                ctx.oracle_fail("read-never-finishes:share-shorter-than-its-offset-table",
+                                "read(%d, %r) neither completed nor failed (%s): share data of share(s) %s cut to %s bytes, %d of %d shares intact (k=%d)" % (
+                                    off, sz, status, sorted(cut), sorted(set(cut.values())), len(shares) - len(hit), len(shares), k), case=case)
+            intact = len(set(s.shnum for s in shares) - set(cut))
+            if status == "error" and which == "one" and intact >= k and (sz is None or sz > 0):
+                ctx.count("short-share:error-with-k-intact-shares")
+            outcomes.append(err or status)
+            ctx.case((i, which, tuple(sorted(cut.items())), off, sz), kind="short-share:%s:%s" % (which, "ok" if status == "ok" else ("refused" if status == "error" else status)))
+            for s in hit:
+                g.write_share(s, raws[(s.server, s.shnum)])
+    return {"outcomes": outcomes}
+
+
+def short_truncations(ctx):
+    for i in range(ctx.n(8, 60)):
+        short_truncation_case(ctx, i)
+
+
 def run(ctx):
     classification(ctx)
     adversarial(ctx)
     large_blocks(ctx)
+    short_truncations(ctx)
 
 
 def replay(ctx, record):
@@ -984,6 +1044,8 @@ def replay(ctx, record):
     case = record.get("case") or {}
     if case.get("large"):
         return large_block_case(ctx, case["i"])
+    if case.get("short"):
+        return short_truncation_case(ctx, case["i"])
     if "scenario" in case and "i" in case:
         return adversarial_case(ctx, case["i"])
     if "file" in case:
